@@ -63,6 +63,12 @@ CanonOK(e) ==
 \* (the class set is computed twice: by errors.Is on the real value, and by the specification's model of Go error chains)
 FilterOK(e) == /\ SeqToSet(e.cls) = ChainClasses(e.chain)
                /\ e.out = (IF Filtered(e.isNil, ChainClasses(e.chain)) THEN "nil" ELSE "same")
+\* component validation over an extension profile's component type whose getter for one field returns the chain: the
+\* three entry points accept exactly when the filter would drop that error, and otherwise report its classes
+CompFilterOK(e) ==
+  LET cls == ChainClasses(e.chain)  pass == Filtered(e.isNil, cls)
+      One(r) == r.ok = pass /\ (~pass => cls \subseteq SeqToSet(r.cls)) IN
+  ~e.panicked /\ One(e.direct) /\ One(e.list) /\ One(e.add)
 \* overwriting the input buffer after decoding changes nothing
 ScribbleOK(e) == e.post = e.pre /\ e.same /\ e.encSame
 \* the exported per-claim validators
@@ -90,6 +96,7 @@ Match(e) ==
     [] e.op = "Canon"   -> CanonOK(e)
     [] e.op = "Ext"     -> ExtOK(e)
     [] e.op = "Filter"  -> FilterOK(e)
+    [] e.op = "CompFilter" -> CompFilterOK(e)
     [] e.op = "Validator" -> ValidatorOK(e)
     [] e.op = "Scribble" -> ScribbleOK(e)
     [] OTHER -> FALSE
